@@ -1,4 +1,5 @@
 import BoltonsVerif.C11.Proofs
+import BoltonsVerif.C11.Extras
 /-
 C11 — property theorems for the IndexedSet model (statements, their short derivations from
 `Proofs.lean`, and non-vacuity examples; nothing else).
@@ -247,6 +248,61 @@ theorem other_sets_untouched (cfg : Cfg) (le : α → α → Bool) (m : Mach α)
     (hj : j < m.regs.length) (hne : j ≠ m.cur) : (mstep cfg le m op).1.regs[j]? = m.regs[j]? :=
   mstep_frame cfg le m op j hj hne
 
+
+/-! ### round 3: formerly trusted / outside-the-model items -/
+
+/-- **`bisect_left` is no longer an assumption**: in every state satisfying the invariant, the binary
+    search of `Lib/bisect.py` (`bisectLeftPy`: `while lo < hi: mid = (lo+hi)//2; if a[mid] < x: lo = mid+1
+    else: hi = mid`) run on `dead_indices` returns exactly what the model's `bisectLeft` abstracts it to,
+    for every candidate interval; hence `_add_dead` written with the real search (`addDeadPy`) is the
+    model's `addDead`. -/
+theorem bisect_left_is_binary_search (s : ISet α) (h : Inv s) :
+    (∀ c, bisectLeftPy s.dead c = bisectLeft s.dead c) ∧
+    (∀ start, addDeadPy s.dead start = addDead s.dead start) :=
+  ⟨fun c => bisectLeftPy_eq s.dead 0 _ h.chain c, fun st => addDeadPy_eq s.dead 0 _ h.chain st⟩
+
+/-- ... and so it is after ANY history -/
+theorem bisect_left_reachable (cfg : Cfg) (le : α → α → Bool) (init : List α) (ops : List (Op α)) (c : Nat × Nat) :
+    bisectLeftPy (runState cfg le (start init) ops).dead c = bisectLeft (runState cfg le (start init) ops).dead c :=
+  (bisect_left_is_binary_search _ (inv_reachable cfg le init ops)).1 c
+
+/-- `s[a:b:-c]` (outside the statement, which speaks of positive steps): NOT list slicing with a negative
+    step but `IndexedSet(list(reversed(s))[a:b:c])` - bounds and step applied to the reversed iteration
+    from its front; this is what the test-suite pins (`x[2:4:-1] == IndexedSet([8, 7])`). -/
+theorem slice_negative_step (s : ISet α) (h : Inv s) (a b : Option Int) (c : Nat) (hc : 0 < c) :
+    ∃ t, s.getSlice a b (some (-(c : Int))) = .ok t ∧ Inv t ∧ t.toList = pySlice s.toList.reverse a b c :=
+  getSlice_neg_spec s h a b c hc
+
+/-- `s[k]` and `s.pop(k)` for `k ≥ len(s)` raise IndexError as a list does, whatever the tombstones
+    (outside the statement, which speaks of valid indexes) -/
+theorem index_beyond_len_raises (cfg : Cfg) (s : ISet α) (h : Inv s) (k : Nat) (hk : s.toList.length ≤ k) :
+    s.getItem (k : Int) = .error .indexError ∧ s.popAt cfg (k : Int) = .error .indexError :=
+  ⟨getItem_beyond s h k hk, popAt_beyond cfg s h k hk⟩
+
+/-- **the thresholds bound the garbage**: after ANY history (any arguments, valid or not) the dead-interval
+    table has at most `limit` (384) entries and the tombstones are at most a `1/factor` (1/8) share of the
+    slots of `item_list` - for every value of the two thresholds.  (This is what keeps index translation
+    cheap; the statement does not ask for it, the anchored mechanism "culled and compacted at thresholds" does.) -/
+theorem garbage_bounded (cfg : Cfg) (le : α → α → Bool) (init : List α) (ops : List (Op α)) :
+    (runState cfg le (start init) ops).dead.length ≤ cfg.limit ∧
+    ((runState cfg le (start init) ops).items.length - (runState cfg le (start init) ops).idx.length) * cfg.factor
+      ≤ (runState cfg le (start init) ops).items.length :=
+  runState_bounded cfg le ops _ (start_refines init).1
+    (foldl_add_bounded cfg init _ inv_empty (bounded_noDead cfg _ inv_empty.toInvC rfl))
+
+/-- ... and with any number of live sets, for each of them -/
+theorem machine_garbage_bounded (cfg : Cfg) (le : α → α → Bool) (init : List α) (ops : List (MOp α)) :
+    ∀ s ∈ (mrunState cfg le (mstart init) ops).regs,
+      s.dead.length ≤ cfg.limit ∧ (s.items.length - s.idx.length) * cfg.factor ≤ s.items.length :=
+  mrunState_bounded cfg le ops _ (by simp [(start_refines init).1])
+    (by simp only [List.mem_singleton, forall_eq]; exact ofList_bounded cfg init) (by simp)
+
+/-- one step: `_cull` restores both bounds whatever it is handed -/
+theorem cull_restores_bounds (cfg : Cfg) (s : ISet α) (h : InvC s) :
+    (cull cfg s).dead.length ≤ cfg.limit ∧
+    ((cull cfg s).items.length - (cull cfg s).idx.length) * cfg.factor ≤ (cull cfg s).items.length :=
+  cull_bounded cfg s (cull_spec cfg s h).1.toInvC
+
 /-! ### non-vacuity: concrete states and histories that satisfy the hypotheses -/
 
 def natLe (a b : Nat) : Bool := a ≤ b
@@ -291,5 +347,30 @@ example : MValidRun natLe (mstartSpec (List.range 4))
 
 /-- the set algebra on a concrete case: {0,1,2,3} ^ [7,0,7] = [1,2,3,7] -/
 example : (ISet.symdiff (start [0, 1, 2, 3]) [⟨.coll, [7, 0, 7]⟩]).toList = [1, 2, 3, 7] := by decide
+
+/-- the binary search on a reachable interval table with three runs, against the abstraction -/
+example : bisectLeftPy [(0, 1), (4, 5), (5, 6)] (5, 6) = 2 ∧ bisectLeft [(0, 1), (4, 5), (5, 6)] (5, 6) = 2 ∧
+    bisectLeftPy [(0, 1), (4, 5), (5, 6)] (2, 3) = 1 ∧ Chain 0 [(0, 1), (4, 5), (5, 6)] 40 := by
+  refine ⟨by decide, by decide, by decide, by simp [Chain]⟩
+
+/-- on an UNSORTED table the binary search and the abstraction differ: the hypothesis is needed -/
+example : bisectLeftPy [(7, 8), (0, 1), (3, 4)] (5, 6) ≠ bisectLeft [(7, 8), (0, 1), (3, 4)] (5, 6) := by decide
+
+/-- a negative step: range(10) without 3, `s[2:4:-1]` = [7, 6] (= reversed [9,8,7,6,...][2:4]); a plain
+    list gives `[]` for `l[2:4:-1]` - the two notions differ, which is why the statement excludes it -/
+example : runOuts cfgReal natLe (start (List.range 10)) [.remove 3, .slice (some 2) (some 4) (some (-1))]
+    = [.unit, .list [7, 6]] := by decide +kernel
+
+/-- beyond the end with a tombstone inside: 9 live items in 10 slots, `s[9]` and `pop(9)` raise -/
+example : runOuts cfgReal natLe (start (List.range 10)) [.remove 3, .get 9, .popAt 9, .get 8]
+    = [.unit, .err .indexError, .err .indexError, .item 9] := by decide +kernel
+
+/-- the threshold at work: 16 items, two removals leave 2 tombstones in 16 slots (2*8 = 16, not above),
+    the third one (3*8 > 16) compacts: 13 slots, no interval -/
+example : (runState cfgReal natLe (start (List.range 16)) [.remove 0, .remove 1]).items.length = 16 ∧
+    (runState cfgReal natLe (start (List.range 16)) [.remove 0, .remove 1]).dead = [(0, 2)] ∧
+    (runState cfgReal natLe (start (List.range 16)) [.remove 0, .remove 1, .remove 2]).items.length = 13 ∧
+    (runState cfgReal natLe (start (List.range 16)) [.remove 0, .remove 1, .remove 2]).dead = [] := by
+  decide +kernel
 
 end C11
